@@ -23,7 +23,8 @@ type c15Completion struct {
 func (w *c15World) completionOf(f *c15Fn) *c15Completion {
 	c := &c15Completion{f: f}
 	for _, l := range w.loopsIn(f) {
-		if l.done != nil {
+		// a pure counting pass does not complete the scan: it only sizes what the real pass fills
+		if l.done != nil && !w.isCountingLoop(w.rootEnv(f), l) {
 			c.dones = append(c.dones, l.done)
 		}
 	}
@@ -89,7 +90,7 @@ func (w *c15World) incomplete(env *c15Env, c *c15Completion, vacuous []*c15Path)
 		}
 		return false
 	}
-	isVacuous := func(pos token.Pos) bool { return w.vacuousAt(env, pos, vacuous) }
+	isVacuous := func(pos token.Pos) bool { return w.vacuousAt(env, pos, vacuous) || w.nothingDueAt(env, pos) }
 	inspectNoLit(f.fi.Decl.Body, func(n ast.Node) bool {
 		ret, ok := n.(*ast.ReturnStmt)
 		if !ok || w.retKind(f, ret) == c15RetFailure {
